@@ -480,6 +480,14 @@ def run(prog, rep, tier):
     check_skip_transpose(rep, units)
     if check_accumulate_options(prog, rep) < 2:
         raise AnalysisError('PAIR-accumulate-options: the fast_dot_sum closures were not found')
+    from ..twins import check_sort_after_reorder
+    rep.rule('PAIR-sort-after-reorder', 'in every kernel that transposes and sorts one operand, the '
+             'transposition precedes the sort of its block list and the leg comparison')
+    so_units = [(prog.module(NPC), q, f) for q, f in prog.module(NPC).functions.items()] + \
+               [(pyx, q, f) for q, f in pyx.functions.items()]
+    if check_sort_after_reorder(prog, rep, so_units) < 2:
+        raise AnalysisError('PAIR-sort-after-reorder: the twins of iadd_prefactor_other / '
+                            'ibinary_blockwise were not found')
     if check_raise_guards(prog, rep, pairs, pyx) < 3:
         raise AnalysisError('PAIR-raise-guards: fewer than 3 common raises in the twins')
     rep.floor('PAIR-regions', 15)
